@@ -27,6 +27,7 @@ def run(chk):
     e3.run_I2(chk)
     e3.run_I3(chk)
     e3.run_I4(chk)
+    e3.run_I6(chk, ("yastn.tensor", "yastn.initialize"))
     chk.rule("S6", "slices of width nsym out of flat block-charge tuples start at a multiple of nsym (also in the unrolled-contraction code)", floor=25)
     e6.run_S6(chk)
 
@@ -34,6 +35,8 @@ def run(chk):
     e10.run_U(chk, ("yastn.tensor",), floor1=5, floor2=1)
 
 MUTANTS = [
+    ("block subset applied to charges and shapes but not to data slices", "yastn/tensor/_merging.py", "        sl_old = [slices[ii] for ii in inds]\n        struct = struct._replace(t=t_old, D=D_old)", "        sl_old = slices\n        struct = struct._replace(t=t_old, D=D_old)", "I6"),
+    ("no-fusion kernel: slices of a not narrowed to contracted blocks", "yastn/tensor/_contractions.py", "    slices_a = [sl.slcs[0] for sl in slices_a] if ind_a is None else [slices_a[ii].slcs[0] for ii in ind_a]", "    slices_a = [sl.slcs[0] for sl in slices_a]", "I6"),
     ("unrolled output charge slice unaligned", "yastn/tensor/oe_blocksparse.py", "block_ct[out_ax * nsym : (out_ax + 1) * nsym]", "block_ct[out_ax : out_ax + nsym]", "S6"),
     ("trace reads policy", "yastn/tensor/_contractions.py", "    if len(nin_0) == 0:\n        return a\n", "    if len(nin_0) == 0 or a.config.tensordot_policy == 'none':\n        return a\n", "N1"),
     ("hfs inside dispatch", "yastn/tensor/_contractions.py", "    elif a.config.tensordot_policy == 'no_fusion':\n        data, struct_c, slices_c = _tensordot_nf(a, b, nout_a, nin_a, nin_b, nout_b)\n",
